@@ -321,7 +321,8 @@ def main_(argv):
             log("harness / repository does not build:\n" + out[-3000:])
             print(f"CHECK-ERROR property={pid} the repository does not compile with the harness")
             return 2
-        modules = cfg["modules"] + ["CantoVerif.Driver." + scfg["driver"].capitalize()] + cfg.get("extra_modules", [])
+        trigger_modules = [m for m in cfg.get("trigger_modules", []) if m not in cfg["modules"]]
+        modules = cfg["modules"] + ["CantoVerif.Driver." + scfg["driver"].capitalize()] + cfg.get("extra_modules", []) + trigger_modules
         okb, bout, broken = lake_build(modules, clean=(tier == "thorough" and os.environ.get("VERIF_CLEAN", "0") == "1"))
         trig_pats = cfg.get("triggers", [])
         trigger_thms = [t for t in cfg["theorems"] if any(re.search(p_, t) for p_ in trig_pats)]
@@ -342,6 +343,9 @@ def main_(argv):
                 for ln, msg in errs:
                     name = next((n for (n, a_, b_) in spans if a_ <= ln <= b_), None)
                     is_bridge = "/Bridge/" in f or f.startswith("CantoVerif/Bridge/")
+                    if mod in trigger_modules or (f.startswith("CantoVerif/Gen/") and mod.replace(".Gen.", ".Bridge.") in trigger_modules):
+                        triggers_hit.append((f, ln, name or "?", msg))
+                        continue
                     mine = (not is_bridge) or name is None or any(t.endswith("." + name) for t in theorems + trigger_thms)
                     if mine and is_bridge and name and any(re.search(p_, name) for p_ in trig_pats):
                         # a search trigger, not an obligation: the text of a mirrored function changed
@@ -353,7 +357,8 @@ def main_(argv):
                 broken_thms.append(("?", 0, "?", bout[-300:]))
             # a Gen file that does not elaborate breaks every bridge that imports it
             for f, ln, msg in broken:
-                if "/Gen/" in f and not any(b[0] == f for b in broken_thms):
+                gmod = f[:-5].replace("/", ".").replace(".Gen.", ".Bridge.") if f.endswith(".lean") else f
+                if "/Gen/" in f and gmod not in trigger_modules and not any(b[0] == f for b in broken_thms):
                     broken_thms.append((f, ln, "(generated file)", msg))
         failed_modules = [m for m in cfg["modules"] if m not in built_modules]
         broken_names = {b[2] for b in broken_thms}
